@@ -1,6 +1,6 @@
 use super::{
     Error, GraphSnapshot, Params, PreparedQuery, Result, Row, Value, WriteSemantics, execute_plan,
-    execute_write, plan_contains_write,
+    plan_contains_write,
 };
 
 impl PreparedQuery {
@@ -73,7 +73,11 @@ impl PreparedQuery {
         }
         params.begin_execution();
         match self.write {
-            WriteSemantics::Default => execute_write(&self.plan, snapshot, txn, params),
+            // Same executor as `execute_mixed`: a statement may chain several update clauses.
+            WriteSemantics::Default => {
+                crate::executor::execute_write_with_rows(&self.plan, snapshot, txn, params)
+                    .map(|(count, _rows)| count)
+            }
             WriteSemantics::Merge => crate::executor::execute_merge(
                 &self.plan,
                 snapshot,
